@@ -214,8 +214,13 @@ pub fn observe(case: &Value) -> Value {
                     match serde_yaml::to_string(&w) {
                         Ok(y) => {
                             let back: Result<CfgWrapper, _> = serde_yaml::from_str(&y);
+                            // ParserNode equality is by (unserialized) id, so compare the
+                            // reloaded structure through its own dump: nothing may be lost
                             let (ok, msg) = match back {
-                                Ok(b) => (b == w, String::new()),
+                                Ok(b) => match serde_yaml::to_string(&b) {
+                                    Ok(y2) => (y2 == y, String::new()),
+                                    Err(e) => (false, e.to_string()),
+                                },
                                 Err(e) => (false, e.to_string()),
                             };
                             out.insert("yaml".into(), json!(y));
@@ -352,8 +357,8 @@ pub fn yaml_values(case: &Value) -> Value {
             }
         }));
         match r {
-            Ok((y, rt, bl)) => locs.push(json!({"l": l, "ok": true, "yaml": y, "rt": rt, "back": bl})),
-            Err(_) => locs.push(json!({"l": l, "ok": false, "yaml": "", "rt": false, "back": {}})),
+            Ok((y, rt, bl)) => locs.push(json!({"v": l, "ok": true, "yaml": y, "rt": rt, "back": bl})),
+            Err(_) => locs.push(json!({"v": l, "ok": false, "yaml": "", "rt": false, "back": {}})),
         }
     }
     json!({"ev": "yamlval", "values": res, "locs": locs})
